@@ -222,7 +222,10 @@ def parse_run_output(path):
             if line.startswith("#T3 "):
                 m = re.match(r"#T3 prop=(\S+) case=(\S*) ?(.*)", line)
                 if m:
-                    t3.append({"prop": m.group(1), "case": m.group(2), "msg": m.group(3)})
+                    # several cases of one run may share a name (corpus + generators): remember which one
+                    # the line belongs to when it directly follows its case
+                    ci = len(cases) - 1 if (cur is not None and cur["name"] == m.group(2)) else None
+                    t3.append({"prop": m.group(1), "case": m.group(2), "msg": m.group(3), "case_index": ci})
                 continue
             if line.startswith("#"):
                 notes.append(line)
@@ -480,13 +483,16 @@ def main():
         """group T3 failures by case, shrink the first few distinct ones"""
         by_case = collections.OrderedDict()
         for t in res["t3"]:
-            by_case.setdefault(t["case"], []).append(t)
+            by_case.setdefault((t["case"], t.get("case_index")), []).append(t)
         done = 0
         seen_keys = set()
-        for cname, ts in by_case.items():
+        for (cname, cidx), ts in by_case.items():
             if done >= 6:
                 break
-            case = next((c for c in res["cases"] if c["name"] == cname), None)
+            if cidx is not None and 0 <= cidx < len(res["cases"]):
+                case = res["cases"][cidx]
+            else:
+                case = next((c for c in res["cases"] if c["name"] == cname), None)
             if case is None:
                 continue
             sig = re.sub(r"[0-9a-f]{4,}|\d+", "#", ts[0]["msg"])[:60]
@@ -511,9 +517,25 @@ def main():
         found = False
         search_note = ""
         if brc == 0 and os.path.exists(binpath):
+            # search input: the regression corpus, then the quick generator (what the main run would have
+            # executed had the proofs built), then the thorough generator with another seed
             sp = os.path.join(workdir, "search.ops")
-            grc, gout, gdt = sh([binpath, "gen", "--prop", pid, "--tier", "thorough", "--seed", str(args.seed + 1), "--out", sp],
-                                env=harness_env(), timeout=1800)
+            grc = 0
+            with open(sp, "w") as f:
+                corpus_dir = os.path.join(VERIF, "corpus", pid)
+                if os.path.isdir(corpus_dir):
+                    for fn in sorted(os.listdir(corpus_dir)):
+                        if fn.endswith(".ops"):
+                            f.write(open(os.path.join(corpus_dir, fn)).read().rstrip("\n") + "\n")
+                for tier, seed in (("quick", args.seed), ("thorough", args.seed + 1)):
+                    part = os.path.join(workdir, "search-%s.ops" % tier)
+                    g1, gout, gdt = sh([binpath, "gen", "--prop", pid, "--tier", tier, "--seed", str(seed), "--out", part],
+                                       env=harness_env(), timeout=1800)
+                    if g1 == 0:
+                        with open(part) as g:
+                            shutil.copyfileobj(g, f)
+                    else:
+                        grc = g1
             if grc == 0:
                 # T3 only needs the real side; model disagreements in the search are used as candidates too
                 cap = prop.get("timeout_s", {}).get("search", 900)
@@ -523,7 +545,7 @@ def main():
                     run_real(binpath, pid, sp, real_path, cap)
                     cs, t3s, _ = parse_run_output(real_path) if os.path.exists(real_path) else ([], [], [])
                     sres = {"cases": cs, "t3": [x for x in t3s if x["prop"] == pid], "disagreements": []}
-                search_note = "searched %d cases of the thorough generator" % len(sres["cases"])
+                search_note = "searched %d cases: corpus + quick + thorough generator" % len(sres["cases"])
                 if sres["t3"]:
                     handle_t3_failures(sres, "search after a broken obligation")
                     found = bool(violations) or bool(known_hits)
